@@ -13,12 +13,12 @@ n = 0
 for f in sorted(RES.glob("*.json")):
     d = json.loads(f.read_text())
     seed = pathlib.Path(d["seed"])
-    m = re.search(r"seed(2?)_(C\d+)_out/(\d)(r?)$", str(seed))
+    m = re.search(r"seed([23]?)_(C\d+)_out/(\d)(r?)$", str(seed))
     if not m:
         continue
     pid, k, rebased = m.group(2), m.group(3), bool(m.group(4))
     if m.group(1):
-        k = str(int(k) + 3)          # second round: ids Cxx-4 .. Cxx-6
+        k = str(int(k) + 3 * (int(m.group(1)) - 1))          # second round: ids Cxx-4 .. Cxx-6, third: Cxx-7 .. Cxx-9
     ok = d.get("demo_clean_rc") == 0 and d.get("demo_patched_rc") not in (0, None) and d.get("suite_baseline") is True and d.get("apply_rc") == 0
     if not ok:
         print("NOT CONFIRMED", seed, d.get("error"))
